@@ -260,8 +260,9 @@ pub fn worker(id: &str, seed: u64, start: u64, step: u64, end: u64) -> i32 {
                 );
             }
         }
+        let restart = crate::simnet::restart_requested();
         since_progress += 1;
-        if since_progress >= 250 {
+        if since_progress >= 250 || restart {
             since_progress = 0;
             // partial results: survive a later abort or hang of this process
             let mut sigv: Vec<u64> = sigs.drain().collect();
@@ -281,6 +282,12 @@ pub fn worker(id: &str, seed: u64, start: u64, step: u64, end: u64) -> i32 {
             samples.clear();
             let mut l = out.lock();
             let _ = writeln!(l, "{}", part);
+            if restart {
+                // threads of the finished run were abandoned (a node exited or hung): continue in a fresh process
+                let _ = writeln!(l, "{}", json!({"restart_after": run}));
+                let _ = l.flush();
+                unsafe { libc::_exit(0) }
+            }
             let _ = l.flush();
         }
         run += step;
@@ -523,6 +530,7 @@ pub fn run_workers(def: &CheckDef, seed: u64, total_runs: u64, workers: u64) -> 
             let mut start = k;
             let mut fins: Vec<Value> = Vec::new();
             let mut deaths: Vec<(u64, String, bool)> = Vec::new(); // (run, status, hang)
+            let mut restarts = 0u64;
             let curfile = tmpdir.join(format!("cur-{}-{}", std::process::id(), k));
             loop {
                 let _ = std::fs::remove_file(&curfile);
@@ -535,6 +543,7 @@ pub fn run_workers(def: &CheckDef, seed: u64, total_runs: u64, workers: u64) -> 
                     .expect("spawn worker");
                 let so = child.stdout.take().unwrap();
                 let mut hang: Option<u64> = None;
+                let mut restart_after: Option<u64> = None;
                 let mut done = false;
                 for line in BufReader::new(so).lines() {
                     let line = match line {
@@ -544,6 +553,8 @@ pub fn run_workers(def: &CheckDef, seed: u64, total_runs: u64, workers: u64) -> 
                     if let Ok(j) = serde_json::from_str::<Value>(&line) {
                         if let Some(h) = j["hang"].as_u64() {
                             hang = Some(h);
+                        } else if let Some(r) = j["restart_after"].as_u64() {
+                            restart_after = Some(r);
                         } else if j["done"].as_bool() == Some(true) {
                             done = true;
                             fins.push(j);
@@ -555,6 +566,14 @@ pub fn run_workers(def: &CheckDef, seed: u64, total_runs: u64, workers: u64) -> 
                 let status = child.wait();
                 if done {
                     break;
+                }
+                if let Some(r) = restart_after {
+                    start = r + workers;
+                    restarts += 1;
+                    if start >= total_runs || restarts > 100_000 {
+                        break;
+                    }
+                    continue;
                 }
                 // abnormal end: which run was executing?
                 let cur = std::fs::read(&curfile).ok().and_then(|b| if b.len() >= 8 { Some(u64::from_le_bytes([b[0], b[1], b[2], b[3], b[4], b[5], b[6], b[7]])) } else { None });
